@@ -6,19 +6,21 @@ vector. Prints `ok …` or `reject …`. -/
 import TboxModel.Util
 import TboxModel.C02.Model
 import TboxModel.C02.Wide
+import TboxModel.C02.WideExec
 open Tbox.Util Tbox.C02
 
 def maxMs : Nat := 4611686018427387904        -- 2^62
 def clockMax : Nat := 7000000000000           -- ms; both virtual clocks of the harness are int64 counts of nanoseconds
-/-- the harness's virtual monotonic clock starts at 1000 ms, the abstract model's at 1 -/
-def realNow (s : State) : Nat := s.now + 999
+/-- the harness's virtual monotonic clock starts at 1000 ms: both machines begin a case with `advance 999` -/
+def realNow (s : State) : Nat := s.now
 
 /-- isEnabled() vector; in a TimerPool case (`poolMode`) every object is owned by the pool and shows `p`
 while armed, `x` once gone -/
-def bitsOf (s : State) (poolMode : Bool := false) : String :=
+def bitsOf (s : State) (poolMode : Bool := false) (slot : Bool := false) : String :=
   if s.nObjs = 0 then "-" else
   String.ofList ((List.range s.nObjs).map fun j =>
     let o := s.obj j
+    if slot && j == 0 then 's' else      -- the loop's exit-timer slot: its state is not observable through the API
     if poolMode then (if o.alive && o.inited && o.enabled then 'p' else 'x')
     else if !o.alive then 'x' else if o.inited && o.enabled then '1' else '0')
 
@@ -29,83 +31,96 @@ def takeNat (cs : List Char) : Option (Nat × List Char) :=
 /- callback scripts: items separated by `,`; a nested script (of a timer created inside the callback)
 is written in brackets.
   plain TimerEvent case: e<j> d<j> x<j> i<j>:<ms>:<o|p>  n[<script>] (newTimerEvent + setCallback)
+                         q<w> (loop->exitLoop(w ms), only in a case that declared the exit-timer slot with `xslot`)
   TimerPool case:        c<k> (cancel)  a<ms>[<script>] (doAfter)  v<ms>[<script>] (doEvery)  z (cleanup)
 `x<self>` (destroying the timer whose callback is running) is outside the property: rejected at top
-level; nested scripts, whose own id is only known at run time, may not contain `x` at all. -/
+level; nested scripts, whose own id is only known at run time, may not contain `x` at all.
+In a slot case object 0 is the loop's exit timer: scripts may not address it except through `q`. -/
+
+/-- `CommonLoop::exitLoop(w)` on the exit-timer slot (object 0): the pending exit timer is disabled and deleted; w = 0 stops the
+loop (the driver notes that), else a new one-shot of w ms is created, initialised and enabled — for the timer core the same as
+re-initialising and enabling the slot -/
+def exitActs (w : Nat) : List Act := if w = 0 then [.disable 0] else [.init 0 w true, .enable 0]
+
 mutual
-partial def pItems (cs : List Char) (self : Option Nat) (pool : Bool) : Option (List Act × List Char) :=
+partial def pItems (cs : List Char) (self : Option Nat) (pool slot : Bool) : Option (List Act × List Char) :=
   match cs with
   | [] => some ([], [])
   | ']' :: _ => some ([], cs)
   | _ => do
-    let (a, rest) ← pItem cs self pool
+    let (a, rest) ← pItem cs self pool slot
     match rest with
     | ',' :: rest' =>
       match rest' with
       | [] => none
       | ']' :: _ => none
       | _ => do
-        let (as, rest'') ← pItems rest' self pool
-        pure (a :: as, rest'')
-    | _ => pure ([a], rest)
+        let (as, rest'') ← pItems rest' self pool slot
+        pure (a ++ as, rest'')
+    | _ => pure (a, rest)
 
-partial def pNested (cs : List Char) (pool : Bool) : Option (List Act × List Char) :=
+partial def pNested (cs : List Char) (pool slot : Bool) : Option (List Act × List Char) :=
   match cs with
   | '[' :: rest => do
-    let (as, rest') ← pItems rest none pool
+    let (as, rest') ← pItems rest none pool slot
     match rest' with
     | ']' :: rest'' => pure (as, rest'')
     | _ => none
   | _ => none
 
-partial def pItem (cs : List Char) (self : Option Nat) (pool : Bool) : Option (Act × List Char) :=
+partial def pItem (cs : List Char) (self : Option Nat) (pool slot : Bool) : Option (List Act × List Char) :=
+  let okId (k : Nat) : Bool := !(slot && k == 0)
   match cs with
-  | 'c' :: rest => if !pool then none else do let (k, r) ← takeNat rest; pure (.cancel k, r)
-  | 'z' :: rest => if !pool then none else pure (.cleanup, rest)
+  | 'c' :: rest => if !pool then none else do let (k, r) ← takeNat rest; pure ([.cancel k], r)
+  | 'z' :: rest => if !pool then none else pure ([.cleanup], rest)
   | 'a' :: rest => if !pool then none else do
       let (ms, r) ← takeNat rest
       if ms < 1 ∨ ms > maxMs then none else
-      let (sc, r') ← pNested r pool
-      pure (.doAfter ms sc, r')
+      let (sc, r') ← pNested r pool slot
+      pure ([.doAfter ms sc], r')
   | 'v' :: rest => if !pool then none else do
       let (ms, r) ← takeNat rest
       if ms < 1 ∨ ms > maxMs then none else
-      let (sc, r') ← pNested r pool
-      pure (.doEvery ms sc, r')
+      let (sc, r') ← pNested r pool slot
+      pure ([.doEvery ms sc], r')
   | 'n' :: rest => if pool then none else do
-      let (sc, r') ← pNested rest pool
-      pure (.newObj sc, r')
-  | 'e' :: rest => if pool then none else do let (k, r) ← takeNat rest; pure (.enable k, r)
-  | 'd' :: rest => if pool then none else do let (k, r) ← takeNat rest; pure (.disable k, r)
+      let (sc, r') ← pNested rest pool slot
+      pure ([.newObj sc], r')
+  | 'q' :: rest => if pool || !slot then none else do
+      let (w, r) ← takeNat rest
+      if w > maxMs then none else pure (exitActs w, r)
+  | 'e' :: rest => if pool then none else do let (k, r) ← takeNat rest; if okId k then pure ([.enable k], r) else none
+  | 'd' :: rest => if pool then none else do let (k, r) ← takeNat rest; if okId k then pure ([.disable k], r) else none
   | 'x' :: rest => if pool then none else do
       let (k, r) ← takeNat rest
       match self with
       | none => none
-      | some me => if k = me then none else pure (.destroy k, r)
+      | some me => if k = me || !okId k then none else pure ([.destroy k], r)
   | 'i' :: rest => if pool then none else do
       let (k, r) ← takeNat rest
+      if !okId k then none else
       match r with
       | ':' :: r1 => do
         let (ms, r2) ← takeNat r1
         if ms < 1 ∨ ms > maxMs then none else
         match r2 with
-        | ':' :: 'o' :: r3 => pure (.init k ms true, r3)
-        | ':' :: 'p' :: r3 => pure (.init k ms false, r3)
+        | ':' :: 'o' :: r3 => pure ([.init k ms true], r3)
+        | ':' :: 'p' :: r3 => pure ([.init k ms false], r3)
         | _ => none
       | _ => none
   | _ => none
 end
 
-def parseScript (w : String) (self : Nat) (poolScript : Bool := false) : Option (List Act) :=
+def parseScript (w : String) (self : Nat) (poolScript : Bool := false) (slot : Bool := false) : Option (List Act) :=
   if w == "-" then some [] else
   if w.isEmpty then none else
-  match pItems w.toList (some self) poolScript with
+  match pItems w.toList (some self) poolScript slot with
   | some (as, []) => some as
   | _ => none
 
-def parseAct (w : String) : Option Act :=
-  match pItem w.toList none false with
-  | some (a, []) => some a
+def parseAct (w : String) (slot : Bool) : Option Act :=
+  match pItem w.toList none false slot with
+  | some ([a], []) => some a
   | _ => none
 
 inductive POp where
@@ -114,11 +129,20 @@ inductive POp where
   | pat (tp : Int) (sc : List Act) | wall (d : Int)
   | idle (d : Nat)
   | wnew | winit (j : Nat) (ms : Int) (oneshot : Bool) | wen (j : Nat) | wdis (j : Nat) | wdel (j : Nat)
+  | xslot | xl (w : Nat) | xlo (w : Nat)             -- the loop's exit timer: slot declaration, exitLoop(w) inside / outside a run
+  | pnull (kind : String) | pdestroy                  -- TimerPool: empty std::function; ~TimerPool with pending timers (then a fresh pool)
 
-def parseOp (s : State) (ws : List String) : POp :=
+def msOk (w : String) : Option Nat := match w.toNat? with | some n => if n ≤ maxMs ∧ w.length ≤ 19 then some n else none | none => none
+
+def parseOp (s : State) (slot : Bool) (ws : List String) : POp :=
   match ws with
   | ["engine", e] => if (e == "epoll" || e == "select") && s.nObjs == 0 then .engine e else .bad
-  | ["new", sc] => match parseScript sc s.nObjs with | some l => .new l | none => .bad
+  | ["xslot"] => if s.nObjs == 0 then .xslot else .bad
+  | ["xl", w] => match msOk w with | some n => if slot then .xl n else .bad | none => .bad
+  | ["xlo", w] => match msOk w with | some n => if slot then .xlo n else .bad | none => .bad
+  | ["pnull", k, ms] => match msOk ms with | some n => if (k == "a" || k == "e" || k == "t") && 1 ≤ n then .pnull k else .bad | none => .bad
+  | ["pdestroy"] => .pdestroy
+  | ["new", sc] => match parseScript sc s.nObjs false slot with | some l => .new l | none => .bad
   | ["pafter", ms, sc] => match ms.toNat?, parseScript sc 0 true with
       | some n, some l => if 1 ≤ n ∧ n ≤ maxMs ∧ ms.length ≤ 19 then .pnew true n l else .bad | _, _ => .bad
   | ["pevery", ms, sc] => match ms.toNat?, parseScript sc 0 true with
@@ -139,24 +163,91 @@ def parseOp (s : State) (ws : List String) : POp :=
   | ["wen", j] => match j.toNat? with | some j => .wen j | none => .bad
   | ["wdis", j] => match j.toNat? with | some j => .wdis j | none => .bad
   | ["wdel", j] => match j.toNat? with | some j => .wdel j | none => .bad
-  | ["init", j, ms, m] => match parseAct ("i" ++ j ++ ":" ++ ms ++ ":" ++ m) with
+  | ["init", j, ms, m] => match parseAct ("i" ++ j ++ ":" ++ ms ++ ":" ++ m) slot with
       | some (.init j ms o) => if j < s.nObjs then .api (.init j ms o) else .bad | _ => .bad
-  | ["en", j] => match j.toNat? with | some j => if j < s.nObjs then .api (.enable j) else .bad | none => .bad
-  | ["dis", j] => match j.toNat? with | some j => if j < s.nObjs then .api (.disable j) else .bad | none => .bad
-  | ["del", j] => match j.toNat? with | some j => if j < s.nObjs then .api (.destroy j) else .bad | none => .bad
+  | ["en", j] => match j.toNat? with | some j => if j < s.nObjs && !(slot && j == 0) then .api (.enable j) else .bad | none => .bad
+  | ["dis", j] => match j.toNat? with | some j => if j < s.nObjs && !(slot && j == 0) then .api (.disable j) else .bad | none => .bad
+  | ["del", j] => match j.toNat? with | some j => if j < s.nObjs && !(slot && j == 0) then .api (.destroy j) else .bad | none => .bad
   | _ => .bad
 
+/-! ### the two model layers in lock-step -/
+
+def wA : Wide.Algs := Tbox.C02.Heap.sortedAlgs Wide.key
+def wl : Int64 := 10000000
+
 structure TAcc where
-  s : State := init
+  s : State := step init (.advance 999)                       -- the abstract model (Model.lean)
+  x : Wide.XState := Wide.xstep wA wl Wide.xinit (.advance 999) -- the width-faithful machine (WideExec.lean), same op list
+  shadow : Bool := true      -- both layers run (false once a wide case used a negative interval: outside the abstract model)
+  slot : Bool := false       -- object 0 is the loop's exit timer
+  stopReq : Bool := false    -- stopLoop() was called: the loop leaves `runLoop` after this pass
   tl : List String := []
   tags : List String := []
   err : Option String := none
   nops : Nat := 0
-  mode : Nat := 0            -- 0 undecided, 1 plain TimerEvent case, 2 TimerPool case, 3 wide case (Wide.lean)
-  ws : Wide.WState := {}     -- wide cases: the width-faithful machine on the explicit heap
+  mode : Nat := 0            -- 0 undecided, 1 plain TimerEvent case, 2 TimerPool case, 3 wide case (signed intervals)
   wall : Int := 0            -- system clock (ms since the harness's wall epoch); `adv` moves both clocks, `wall` only this one
 
-def TAcc.bits (a : TAcc) (s : State) : String := bitsOf s (a.mode == 2)
+def TAcc.bits (a : TAcc) (s : State) : String := bitsOf s (a.mode == 2) a.slot
+
+def xbits (x : Wide.XState) : String :=
+  if x.nObjs = 0 then "-" else
+  String.ofList ((List.range x.nObjs).map fun j =>
+    let o := x.obj j
+    if !o.alive then 'x' else if o.inited && o.enabled then '1' else '0')
+
+def stepName : Step → String
+  | .newObj _ => "newObj" | .api _ => "api" | .advance d => s!"advance {d}" | .beginPass => "beginPass"
+  | .fire tok => s!"fire token {tok}" | .endPass => "endPass"
+
+/-- the wide machine takes the step the abstract one took.  `fire tok`: the wide machine serves the FRONT of its heap vector;
+which of several records with the front's deadline is in front is the heap library's choice, so the record is first
+moved to the front among its equals (as the acceptor follows the real heap) -/
+def xApply (x : Wide.XState) (st : Step) : Option Wide.XState :=
+  let x := match st with
+    | .fire tok => match x.loop.heap.find? (fun t => t.tok == tok), x.loop.heap.head? with
+        | some t, some f => if t.expired == f.expired then { x with loop := { x.loop with heap := Wide.bringFront x.loop.heap t } } else x
+        | _, _ => x
+    | _ => x
+  if Wide.xvalid wA wl x st then some (Wide.xstep wA wl x st) else none
+
+def sync (a : TAcc) (sts : List Step) : TAcc :=
+  sts.foldl (fun a st =>
+    if a.err.isSome || !a.shadow then a else
+    match xApply a.x st with
+    | some x' => { a with x := x' }
+    | none => { a with err := some s!"M: op#{a.nops} the two model layers disagree: the width-faithful machine refuses step [{stepName st}] of the abstract model" }) a
+
+/-- the abstract model takes the step the wide machine took (wide cases) -/
+def shadowStep (a : TAcc) (st : Step) : TAcc :=
+  if a.err.isSome || !a.shadow then a else
+  if valid a.s st then { a with s := step a.s st }
+  else { a with err := some s!"M: op#{a.nops} the two model layers disagree: the abstract model refuses step [{stepName st}] of the width-faithful machine" }
+
+/-- after every op: the two layers are in related states (the relation `Wide.Sim` of the simulation theorem, made executable) -/
+def agree (a : TAcc) : TAcc :=
+  if a.err.isSome || !a.shadow then a else
+  let srt (l : List (Nat × Nat × Nat × Nat × Bool)) := Tbox.C02.Heap.isort (fun p => p.1) l
+  let sa := srt (a.s.timers.map fun r => (r.tok, r.owner, r.expired, r.interval, r.oneshot))
+  let xa := srt (a.x.loop.heap.map fun t => (t.tok, t.owner, t.expired.toNat, t.interval.toNat, t.rep == 1))
+  let objsOk := (List.range (max a.s.nObjs a.x.nObjs)).all fun j =>
+    let o := a.s.obj j
+    let p := a.x.obj j
+    o.alive == p.alive && o.inited == p.inited && o.enabled == p.enabled && o.oneshot == p.oneshot && o.token == p.token &&
+      (o.interval : Int) == p.interval.toInt
+  let bad : Option String :=
+    if sa != xa then some s!"pending records abstract={sa} wide={xa}"
+    else if !objsOk then some "object flags"
+    else if a.s.nObjs != a.x.nObjs then some "object count"
+    else if a.s.pool != a.x.pool then some "live pool tokens"
+    else if a.s.nextTok != a.x.loop.nextTok then some "token allocator"
+    else if a.s.now != a.x.now.toNat then some "clock"
+    else if a.s.log.length != a.x.log.length || a.s.log.head? != a.x.log.head? then some "callback log"
+    else if !Tbox.C02.Heap.isHeapB Wide.key a.x.loop.heap then some "wide vector not heap-ordered"
+    else none
+  match bad with
+  | some m => { a with err := some s!"M: op#{a.nops} the two model layers disagree after the op: {m}" }
+  | none => a
 
 def expectLine (a : TAcc) (want : String) (what : String) : TAcc :=
   if a.err.isSome then a else
@@ -165,10 +256,19 @@ def expectLine (a : TAcc) (want : String) (what : String) : TAcc :=
                  else { a with err := some s!"op#{a.nops} {what}: impl=[{l}] model=[{want}]" }
   | [] => { a with err := some s!"op#{a.nops} {what}: impl=<missing> model=[{want}]" }
 
+/-- the loop left `runLoop` iff `stopLoop()` was called (exit timer fired, or exitLoop(0)) -/
+def expectExit (a : TAcc) : TAcc :=
+  if a.err.isSome then a else
+  if a.stopReq then expectLine { a with stopReq := false, tags := a.tags ++ ["loop-exit"] } "P loop-exit" "the loop must leave runLoop (stopLoop was called)"
+  else a
+
+def isSlotAct : Act → Bool
+  | .init 0 _ _ => true | .enable 0 => true | .disable 0 => true | _ => false
+
 /-- return values of the calls a callback made, as the harness prints them (`R 101`, `R -` if none);
-the tail of the doAfter wrapper (`pfree`) is not a user call -/
-def retsLine (script : List Act) (rets : List Bool) : String :=
-  let vis := (script.zip rets).filter fun p => match p.1 with | .pfree _ => false | _ => true
+the tail of the doAfter wrapper (`pfree`) is not a user call, `exitLoop` returns nothing -/
+def retsLine (script : List Act) (rets : List Bool) (slot : Bool) : String :=
+  let vis := (script.zip rets).filter fun p => match p.1 with | .pfree _ => false | a => !(slot && isSlotAct a)
   if vis.isEmpty then "R -" else "R " ++ String.ofList (vis.map fun p => if p.2 then '1' else '0')
 
 def actTags : List Act → List String
@@ -177,43 +277,65 @@ def actTags : List Act → List String
       | .doAfter _ _ => ["cb-doAfter"] | .doEvery _ _ => ["cb-doEvery"] | .cancel _ => ["cb-cancel"]
       | .cleanup => ["cb-cleanup"] | .newObj _ => ["cb-new"] | _ => []) ++ actTags as
 
-/-- consume the `F j en=…` / `R …` lines of one pass -/
-partial def firePass (a : TAcc) (seen : List Nat) : TAcc :=
+/-- consume the `F j en=…` / `R …` lines of one pass, then continue with `k`.  The exit timer's callback is internal to the
+loop (no `F` line): whenever its record is due and of minimal deadline it may fire silently; among records of EQUAL
+deadline the heap decides the order, which is observable only afterwards (does the loop leave `runLoop`?), so both orders
+are tried. -/
+partial def firePass (a : TAcc) (seen : List Nat) (k : TAcc → TAcc) : TAcc :=
+  if a.err.isSome then a else
+  let slotRec : Option Rec := if a.slot then (a.s.timers.find? (fun r => r.owner == 0)).filter (canFire a.s) else none
+  let silent : Option TAcc := slotRec.map fun r =>
+    let (s', _) := fireR a.s r
+    sync { a with s := s', stopReq := true, tags := a.tags ++ ["exit-fired"] ++ (if a.s.passNow.getD 0 > r.expired then ["exit-late"] else []) } [.fire r.tok]
+  let fallthrough : TAcc := match silent with
+    | some a' => firePass a' seen k
+    | none => k a
   match a.tl with
   | l :: rest =>
     match words l with
     | ["F", j, en] =>
-      match j.toNat? with
-      | none => { a with err := some s!"op#{a.nops} unparsable callback line [{l}]" }
-      | some j =>
-        match a.s.timers.find? (fun r => r.owner == j) with
-        | none => { a with err := some s!"op#{a.nops} callback on timer {j} which is not armed (disabled, destroyed, cancelled, one-shot already fired, or never enabled)" }
-        | some r =>
-          if !canFire a.s r then
-            let t := a.s.passNow.getD 0
-            if r.expired > t then { a with err := some s!"op#{a.nops} timer {j} fired EARLY: deadline {r.expired} > now {t}" }
-            else { a with err := some s!"op#{a.nops} timer {j} (deadline {r.expired}) fired before an earlier deadline" }
-          else
-            -- isEnabled() vector at callback entry: a one-shot already reports disabled
-            let sEntry := if r.oneshot then a.s.setObj j { a.s.obj j with enabled := false } else a.s
-            let want := "en=" ++ a.bits sEntry
-            if en != want then { a with err := some s!"op#{a.nops} at entry of callback {j}: impl=[{en}] model=[{want}]" }
+      let normal : TAcc :=
+        match j.toNat? with
+        | none => { a with err := some s!"op#{a.nops} unparsable callback line [{l}]" }
+        | some j =>
+          match a.s.timers.find? (fun r => r.owner == j) with
+          | none => { a with err := some s!"op#{a.nops} callback on timer {j} which is not armed (disabled, destroyed, cancelled, one-shot already fired, or never enabled)" }
+          | some r =>
+            if !canFire a.s r then
+              let t := a.s.passNow.getD 0
+              if r.expired > t then { a with err := some s!"op#{a.nops} timer {j} fired EARLY: deadline {r.expired} > now {t}" }
+              else { a with err := some s!"op#{a.nops} timer {j} (deadline {r.expired}) fired before an earlier deadline" }
             else
-              let ties := (a.s.timers.filter fun q => q.expired == r.expired).length
-              let nBefore := a.s.timers.length
-              let script := (a.s.obj j).script
-              let (s', rets) := fireR a.s r          -- = (fire a.s r, return values): theorem fireR_fst
-              let tags := (if ties > 1 then ["tie"] else []) ++ (if seen.contains j then ["catchup"] else [])
-                ++ (if a.s.passNow.getD 0 > r.expired then ["late"] else [])
-                ++ (if s'.timers.length + (if r.oneshot then 1 else 0) < nBefore then ["cb-removed-other"] else [])
-                ++ (if s'.timers.length + (if r.oneshot then 1 else 0) > nBefore then ["cb-armed-other"] else [])
-                ++ actTags script
-                ++ (if script.any (fun x => match x with | .cancel k => k == j | _ => false) then ["cb-cancel-self"] else [])
-              let a1 := expectLine { a with s := s', tl := rest, tags := a.tags ++ tags } (retsLine script rets)
-                          s!"results of the calls made by callback {j}"
-              if a1.err.isSome then a1 else firePass a1 (j :: seen)
-    | _ => a
-  | [] => a
+              -- isEnabled() vector at callback entry: a one-shot already reports disabled
+              let sEntry := if r.oneshot then a.s.setObj j { a.s.obj j with enabled := false } else a.s
+              let want := "en=" ++ a.bits sEntry
+              if en != want then { a with err := some s!"op#{a.nops} at entry of callback {j}: impl=[{en}] model=[{want}]" }
+              else
+                let ties := (a.s.timers.filter fun q => q.expired == r.expired).length
+                let nBefore := a.s.timers.length
+                let script := (a.s.obj j).script
+                let (s', rets) := fireR a.s r          -- = (fire a.s r, return values): theorem fireR_fst
+                let stops := a.slot && script.any (fun x => match x with | .disable 0 => true | _ => false)   -- exitLoop(0) inside the callback
+                let tags := (if ties > 1 then ["tie"] else []) ++ (if seen.contains j then ["catchup"] else [])
+                  ++ (if a.s.passNow.getD 0 > r.expired then ["late"] else [])
+                  ++ (if s'.timers.length + (if r.oneshot then 1 else 0) < nBefore then ["cb-removed-other"] else [])
+                  ++ (if s'.timers.length + (if r.oneshot then 1 else 0) > nBefore then ["cb-armed-other"] else [])
+                  ++ actTags script
+                  ++ (if script.any (fun x => match x with | .cancel k => k == j | _ => false) then ["cb-cancel-self"] else [])
+                  ++ (if a.slot && script.any isSlotAct then ["cb-exitLoop"] else [])
+                  ++ (if slotRec.isSome then ["exit-tie"] else [])
+                let a0 := sync { a with s := s', tl := rest, tags := a.tags ++ tags, stopReq := a.stopReq || stops } [.fire r.tok]
+                let a1 := expectLine a0 (retsLine script rets a.slot) s!"results of the calls made by callback {j}"
+                if a1.err.isSome then a1 else firePass a1 (j :: seen) k
+      match silent with
+      | some a' =>
+        let viaExit := firePass a' seen k
+        if viaExit.err.isNone then viaExit else
+        let n := normal
+        if n.err.isNone then n else viaExit
+      | none => normal
+    | _ => fallthrough
+  | [] => fallthrough
 
 def boolStr (b : Bool) : String := if b then "1" else "0"
 
@@ -253,22 +375,17 @@ def checkWait (nops : Nat) (line : String) (front : Option UInt64) (now : UInt64
     | _, _ => some s!"op#{nops} unparsable wait line [{line}]"
   | _ => some s!"op#{nops} idle pass: expected the wait line of the engine, impl=[{line}]"
 
-/-- front deadline of the abstract model on the harness's clock, as the 64-bit field -/
+/-- front deadline of the abstract model, as the 64-bit field -/
 def frontOf (s : State) : Option UInt64 :=
   match s.timers with
   | [] => none
-  | r :: rs => some (UInt64.ofNat ((rs.foldl (fun m q => min m q.expired) r.expired) + 999))
+  | r :: rs => some (UInt64.ofNat (rs.foldl (fun m q => min m q.expired) r.expired))
 
-/-! ### wide cases: acceptor on `Wide.WState` (sorted-vector instance of the heap contract) -/
-
-def wA : Wide.Algs := Tbox.C02.Heap.sortedAlgs Wide.key
-
-def wbits (s : Wide.WState) : String :=
-  if s.objs.size = 0 then "-" else
-  String.ofList (s.objs.toList.map fun o => if !o.alive then 'x' else if o.inited && o.enabled then '1' else '0')
+/-! ### wide cases (any signed interval): the width-faithful machine is the acceptor, the abstract model follows while it applies -/
 
 /-- consume the `F j en=…` / `R -` lines of one pass of a wide case -/
 partial def wFirePass (a : TAcc) : TAcc :=
+  if a.err.isSome then a else
   match a.tl with
   | l :: rest =>
     match words l with
@@ -276,63 +393,90 @@ partial def wFirePass (a : TAcc) : TAcc :=
       match j.toNat? with
       | none => { a with err := some s!"op#{a.nops} unparsable callback line [{l}]" }
       | some j =>
-        match a.ws.loop.heap.find? (fun t => t.owner == j), a.ws.loop.heap with
+        let now := a.x.passNow.getD a.x.now
+        match a.x.loop.heap.find? (fun t => t.owner == j), a.x.loop.heap with
         | some t, f :: _ =>
-          if !Wide.due a.ws.now t.expired then
-            { a with err := some s!"op#{a.nops} timer {j} fired EARLY: 64-bit deadline {t.expired} > now {a.ws.now}" }
+          if !Wide.due now t.expired then
+            { a with err := some s!"op#{a.nops} timer {j} fired EARLY: 64-bit deadline {t.expired} > now {now}" }
           else if t.expired != f.expired then
             { a with err := some s!"op#{a.nops} timer {j} (deadline {t.expired}) fired before an earlier deadline ({f.expired})" }
           else
-            let loop0 := { a.ws.loop with heap := Wide.bringFront a.ws.loop.heap t }
-            let (loop1, sv) := Wide.handleOne wA 10000000 loop0 a.ws.now
-            if (sv.map fun x => x.timer.tok) != some t.tok then { a with err := some s!"M: op#{a.nops} wide model served another record than {j}" } else
-            let ws1 := Wide.wOnEvent { a.ws with loop := loop1 } j
-            let want := "en=" ++ wbits ws1
-            if en != want then { a with err := some s!"op#{a.nops} at entry of callback {j}: impl=[{en}] model=[{want}]" } else
-            let tags := (if t.interval.toNat ≥ 9223372036854775808 then ["w-negative"] else []) ++
-                        (if t.interval.toNat ≥ 2147483648 ∧ t.interval.toNat < 9223372036854775808 then ["w-fired-2^31+"] else [])
-            let a1 := expectLine { a with ws := ws1, tl := rest, tags := a.tags ++ ["w-fire"] ++ tags } "R -" s!"results of the calls made by callback {j}"
-            if a1.err.isSome then a1 else wFirePass a1
+            match xApply a.x (.fire t.tok) with
+            | none => { a with err := some s!"M: op#{a.nops} wide model served another record than {j}" }
+            | some x1 =>
+              let want := "en=" ++ xbits x1
+              if en != want then { a with err := some s!"op#{a.nops} at entry of callback {j}: impl=[{en}] model=[{want}]" } else
+              let tags := (if t.interval.toNat ≥ 9223372036854775808 then ["w-negative"] else []) ++
+                          (if t.interval.toNat ≥ 2147483648 ∧ t.interval.toNat < 9223372036854775808 then ["w-fired-2^31+"] else [])
+              let a0 := shadowStep { a with x := x1, tl := rest, tags := a.tags ++ ["w-fire"] ++ tags } (.fire t.tok)
+              let a1 := expectLine a0 "R -" s!"results of the calls made by callback {j}"
+              if a1.err.isSome then a1 else wFirePass a1
         | _, _ => { a with err := some s!"op#{a.nops} callback on timer {j} which is not armed (disabled, destroyed, one-shot already fired, or never enabled)" }
     | _ => a
   | [] => a
 
-/-- the callbacks of one pass of a wide case at the current clock; then nothing may be due -/
+/-- one pass of a wide case at the current clock: begin, the callbacks, then nothing may be due -/
 def wDrain (a : TAcc) : TAcc :=
   if a.err.isSome then a else
-  let a1 := wFirePass a
+  let a0 := shadowStep { a with x := Wide.xstep wA wl a.x .beginPass } .beginPass
+  let a1 := wFirePass a0
   if a1.err.isSome then a1 else
-  match (Wide.handleOne wA 10000000 a1.ws.loop a1.ws.now).2 with
-  | some sv => { a1 with err := some s!"op#{a1.nops} pass ended although timer {sv.timer.owner} is due (64-bit deadline {sv.timer.expired} <= now {a1.ws.now}): SKIPPED" }
-  | none => a1
+  if !Wide.xvalid wA wl a1.x .endPass then
+    match (Wide.handleOne wA wl a1.x.loop (a1.x.passNow.getD a1.x.now)).2 with
+    | some sv => { a1 with err := some s!"op#{a1.nops} pass ended although timer {sv.timer.owner} is due (64-bit deadline {sv.timer.expired} <= now {a1.x.now}): SKIPPED" }
+    | none => { a1 with err := some s!"M: op#{a1.nops} wide machine cannot end the pass" }
+  else shadowStep { a1 with x := Wide.xstep wA wl a1.x .endPass } .endPass
 
-/-- `adv` / `idle` of a wide case: the pass, then the report line -/
-def wPass (a : TAcc) : TAcc :=
-  let a1 := wDrain a
-  if a1.err.isSome then a1 else expectLine a1 ("P ret=1 en=" ++ wbits a1.ws) "after pass"
+/-- `adv` / `idle` of a wide case: the clock, the pass, then the report line -/
+def wPass (a : TAcc) (d : Nat) : TAcc :=
+  let a0 := shadowStep { a with x := Wide.xstep wA wl a.x (.advance d) } (.advance d)
+  let a1 := wDrain a0
+  if a1.err.isSome then a1 else expectLine a1 ("P ret=1 en=" ++ xbits a1.x) "after pass"
 
 def boundaryTags (ms : Nat) : List String :=
   (if ms ≥ 2147483646 ∧ ms ≤ 2147483650 then ["iv~2^31"] else []) ++ (if ms ≥ 4294967294 ∧ ms ≤ 4294967298 then ["iv~2^32"] else []) ++
   (if ms > 2147483650 ∧ ms < 4294967294 then ["iv-25..49d"] else []) ++ (if ms > 4294967298 then ["iv>2^32"] else [])
 
+/-- API acts made outside callbacks, on both layers -/
+def apiActs (a : TAcc) (acts : List Act) : TAcc :=
+  let s' := runScript a.s acts          -- = the steps `.api act` one after the other
+  sync { a with s := s' } (acts.map Step.api)
+
+/-- the pass of `adv d` / `idle d` in a plain or TimerPool case -/
+def plainPass (a : TAcc) (d : Nat) : TAcc :=
+  let s1 := step (step a.s (.advance d)) .beginPass
+  let a0 := sync { a with s := s1, wall := a.wall + d } [.advance d, .beginPass]
+  let n0 := a.s.log.length
+  firePass a0 [] fun a1 =>
+    if a1.err.isSome then a1 else
+    if !valid a1.s .endPass then
+      let due := a1.s.timers.filter fun r => r.expired ≤ a1.s.passNow.getD 0
+      { a1 with err := some s!"op#{a1.nops} pass ended although timer(s) {due.map (·.owner)} are due (deadline(s) {due.map (·.expired)} <= now {a1.s.passNow.getD 0}): SKIPPED" }
+    else
+      let s2 := step a1.s .endPass
+      let fired := a1.s.log.length - n0
+      let tg := if fired = 0 then "pass0" else if fired = 1 then "pass1" else "passN"
+      let a2 := sync { a1 with s := s2, tags := a1.tags ++ [tg] } [.endPass]
+      expectExit (expectLine a2 ("P ret=1 en=" ++ a2.bits s2) "after pass")
+
 def stepOp (a : TAcc) (line : String) : TAcc :=
   if a.err.isSome then a else
   let a := { a with nops := a.nops + 1 }
-  let op := parseOp a.s (words line)
+  let op := parseOp a.s a.slot (words line)
   let isPool := match op with
-    | .pnew _ _ _ => true | .pcancel _ => true | .pcleanup => true | .pat _ _ => true | .wall _ => true | _ => false
-  let isPlain := match op with | .new _ => true | .api _ => true | _ => false
+    | .pnew _ _ _ => true | .pcancel _ => true | .pcleanup => true | .pat _ _ => true | .wall _ => true | .pnull _ => true | .pdestroy => true | _ => false
+  let isPlain := match op with | .new _ => true | .api _ => true | .xslot => true | .xl _ => true | .xlo _ => true | _ => false
   let isWide := match op with | .wnew => true | .winit _ _ _ => true | .wen _ => true | .wdis _ => true | .wdel _ => true | _ => false
   let op := if (isPool && a.mode != 0 && a.mode != 2) || (isPlain && a.mode != 0 && a.mode != 1) || (isWide && a.mode != 0 && a.mode != 3) then POp.bad else op
   -- wide ops address existing objects only
   let op := match op with
-    | .winit j _ _ => if j < a.ws.objs.size then op else POp.bad
-    | .wen j => if j < a.ws.objs.size then op else POp.bad
-    | .wdis j => if j < a.ws.objs.size then op else POp.bad
-    | .wdel j => if j < a.ws.objs.size then op else POp.bad
+    | .winit j _ _ => if j < a.x.nObjs then op else POp.bad
+    | .wen j => if j < a.x.nObjs then op else POp.bad
+    | .wdis j => if j < a.x.nObjs then op else POp.bad
+    | .wdel j => if j < a.x.nObjs then op else POp.bad
     | _ => op
   -- the clock stays below 7·10^12 ms (int64 nanoseconds)
-  let clk := if a.mode == 3 then a.ws.now.toNat else realNow a.s
+  let clk := a.x.now.toNat
   let op := match op with
     | .adv d => if clk + d ≤ clockMax then op else POp.bad
     | .idle d => if clk + d ≤ clockMax then op else POp.bad
@@ -344,53 +488,90 @@ def stepOp (a : TAcc) (line : String) : TAcc :=
   let a := match op with
     | .bad => a
     | _ => if isPool then { a with mode := 2 } else if isPlain then { a with mode := 1 } else if isWide then { a with mode := 3 } else a
-  match op with
+  agree <| match op with
   | .bad => expectLine a "bad-op" "malformed op"
   | .engine e => expectLine { a with tags := a.tags ++ [e] } ("P engine=" ++ e) "engine"
   | .new sc =>
       let s' := step a.s (.newObj sc)
-      expectLine { a with s := s' } ("P ret=1 en=" ++ a.bits s') "new"
+      let a1 := sync { a with s := s' } [.newObj sc]
+      expectLine a1 ("P ret=1 en=" ++ a1.bits s') "new"
+  | .xslot =>
+      let s' := step a.s (.newObj [])
+      let a1 := sync { a with s := s', slot := true, tags := a.tags ++ ["exit-slot"] } [.newObj []]
+      expectLine a1 ("P ret=1 en=" ++ a1.bits s') "exit-timer slot"
+  | .xl w =>
+      -- loop->exitLoop(w) from a deferred function of the running loop
+      let a1 := apiActs { a with tags := a.tags ++ ["exitLoop"] ++ boundaryTags w ++ (if w == 0 then ["exitLoop-0"] else []), stopReq := a.stopReq || w == 0 } (exitActs w)
+      expectExit (expectLine a1 ("P ret=1 en=" ++ a1.bits a1.s) "exitLoop")
+  | .xlo w =>
+      -- the loop is stopped (exitLoop(0)); once runLoop has returned exitLoop(w) is called from outside; then the loop runs again
+      let a1 := apiActs { a with tags := a.tags ++ ["exitLoop-outside"], stopReq := true } (exitActs 0)
+      let a2 := expectExit (expectLine a1 ("P ret=1 en=" ++ a1.bits a1.s) "exitLoop(0)")
+      -- (exitLoop(0) outside a run clears `keep_running_`, which `runLoop` sets again: no effect on the next run)
+      let a3 := apiActs a2 (exitActs w)
+      expectLine a3 ("P armed-outside en=" ++ a3.bits a3.s) "exitLoop outside the run"
   | .pnew after ms sc =>
       -- TimerPool::doAfter / doEvery: the model's `Pool.doAfter` / `Pool.doEvery` (= step (.api (.doAfter ms sc)))
       let (s', _tok) := if after then Pool.doAfter a.s ms sc else Pool.doEvery a.s ms sc
-      expectLine { a with s := s', tags := a.tags ++ ["pool"] ++ boundaryTags ms } ("P ret=1 en=" ++ a.bits s') "pool new"
+      let a1 := sync { a with s := s', tags := a.tags ++ ["pool"] ++ boundaryTags ms } [.api (if after then .doAfter ms sc else .doEvery ms sc)]
+      expectLine a1 ("P ret=1 en=" ++ a1.bits s') "pool new"
   | .pat tp sc =>
       match Pool.doAt a.s a.wall tp sc with
-      | some (s', _tok) => expectLine { a with s := s', tags := a.tags ++ ["pool", "doAt"] } ("P ret=1 en=" ++ a.bits s') "pool doAt"
+      | some (s', _tok) =>
+        let a1 := sync { a with s := s', tags := a.tags ++ ["pool", "doAt"] } [.api (.doAfter (tp - a.wall).toNat sc)]
+        expectLine a1 ("P ret=1 en=" ++ a1.bits s') "pool doAt"
       | none => expectLine a "bad-op" "doAt in the past"
   | .wall d => expectLine { a with wall := a.wall + d, tags := a.tags ++ ["walljump"] } "P wall" "wall clock jump"
+  | .pnull k =>
+      -- doAfter / doEvery / doAt with an empty std::function: refused at the call (null token), nothing is created
+      expectLine { a with tags := a.tags ++ ["pool-null-" ++ k] } ("P ret=0 cancel=0 en=" ++ a.bits a.s) "pool call with an empty callback"
+  | .pdestroy =>
+      -- ~TimerPool with pending timers (= cleanup), then a fresh pool on the same loop
+      let s' := Pool.cleanup a.s
+      let a1 := sync { a with s := s', tags := a.tags ++ ["pool-destroy"] ++ (if a.s.pool.isEmpty then [] else ["pool-destroy-pending"]) } [.api .cleanup]
+      expectLine a1 ("P ret=1 en=" ++ a1.bits s') "pool destruction"
   | .pcancel k =>
       let (s', r) := Pool.cancel a.s k
-      expectLine { a with s := s' } ("P ret=" ++ boolStr r ++ " en=" ++ a.bits s') "pool cancel"
+      let a1 := sync { a with s := s' } [.api (.cancel k)]
+      expectLine a1 ("P ret=" ++ boolStr r ++ " en=" ++ a1.bits s') "pool cancel"
   | .pcleanup =>
       let s' := Pool.cleanup a.s
-      expectLine { a with s := s' } ("P ret=1 en=" ++ a.bits s') "pool cleanup"
+      let a1 := sync { a with s := s' } [.api .cleanup]
+      expectLine a1 ("P ret=1 en=" ++ a1.bits s') "pool cleanup"
   | .api act_ =>
       let (s', r) := act a.s act_
       let tg := match act_ with | .init _ ms _ => boundaryTags ms | _ => []
-      expectLine { a with s := s', tags := a.tags ++ tg } ("P ret=" ++ boolStr r ++ " en=" ++ a.bits s') "api result"
+      let a1 := sync { a with s := s', tags := a.tags ++ tg } [.api act_]
+      expectLine a1 ("P ret=" ++ boolStr r ++ " en=" ++ a1.bits s') "api result"
   | .wnew =>
-      let ws := Wide.wNew a.ws
-      expectLine (wDrain { a with ws := ws, tags := a.tags ++ ["wide"] }) ("P ret=1 en=" ++ wbits ws) "wnew"
+      let a1 := shadowStep { a with x := Wide.xNewObj a.x [], tags := a.tags ++ ["wide"] } (.newObj [])
+      let a2 := wDrain a1
+      expectLine a2 ("P ret=1 en=" ++ xbits a1.x) "wnew"
   | .winit j ms o =>
-      let (ws, r) := Wide.wInit wA a.ws j (Int64.ofInt ms) o
+      let (x', r) := Wide.xInit wA a.x j (Int64.ofInt ms) o
       let tg := if ms < 0 then ["w-init-negative"] else if ms == 0 then ["w-init-zero"] else boundaryTags ms.toNat
-      expectLine (wDrain { a with ws := ws, tags := a.tags ++ tg }) ("P ret=" ++ boolStr r ++ " en=" ++ wbits ws) "winit"
+      let a0 := { a with x := x', tags := a.tags ++ tg }
+      -- a negative count is outside the abstract model: from here on only the wide machine runs
+      let a1 := if ms < 0 then { a0 with shadow := false, tags := a0.tags ++ ["shadow-off"] } else shadowStep a0 (.api (.init j ms.toNat o))
+      expectLine (wDrain a1) ("P ret=" ++ boolStr r ++ " en=" ++ xbits x') "winit"
   | .wen j =>
-      let (ws, r) := Wide.wEnable wA a.ws j
-      let ok := Tbox.C02.Heap.isHeapB Wide.key ws.loop.heap
+      let (x', r) := Wide.xEnable wA a.x j
+      let ok := Tbox.C02.Heap.isHeapB Wide.key x'.loop.heap
       if !ok then { a with err := some s!"M: op#{a.nops} wide model: vector not heap-ordered" } else
-      expectLine (wDrain { a with ws := ws }) ("P ret=" ++ boolStr r ++ " en=" ++ wbits ws) "wen"
+      let a1 := shadowStep { a with x := x' } (.api (.enable j))
+      expectLine (wDrain a1) ("P ret=" ++ boolStr r ++ " en=" ++ xbits x') "wen"
   | .wdis j =>
-      let (ws, r) := Wide.wDisable wA a.ws j
-      expectLine (wDrain { a with ws := ws }) ("P ret=" ++ boolStr r ++ " en=" ++ wbits ws) "wdis"
+      let (x', r) := Wide.xDisable wA a.x j
+      let a1 := shadowStep { a with x := x' } (.api (.disable j))
+      expectLine (wDrain a1) ("P ret=" ++ boolStr r ++ " en=" ++ xbits x') "wdis"
   | .wdel j =>
-      let (ws, r) := Wide.wDestroy wA a.ws j
-      expectLine (wDrain { a with ws := ws }) ("P ret=" ++ boolStr r ++ " en=" ++ wbits ws) "wdel"
+      let (x', r) := Wide.xDestroy wA a.x j
+      let a1 := shadowStep { a with x := x' } (.api (.destroy j))
+      expectLine (wDrain a1) ("P ret=" ++ boolStr r ++ " en=" ++ xbits x') "wdel"
   | .idle d =>
       -- the loop goes to sleep (no next-function pending): the wait it asks for, then as `adv d`
-      let (front, now) := if a.mode == 3 then (a.ws.loop.heap.head?.map (·.expired), a.ws.now)
-                          else (frontOf a.s, UInt64.ofNat (realNow a.s))
+      let (front, now) := if a.mode == 3 then (a.x.loop.heap.head?.map (·.expired), a.x.now)
+                          else (frontOf a.s, UInt64.ofNat a.s.now)
       match a.tl with
       | [] => { a with err := some s!"op#{a.nops} idle pass: impl=<missing>" }
       | l :: rest =>
@@ -401,30 +582,9 @@ def stepOp (a : TAcc) (line : String) : TAcc :=
             | none => "idle-none"
             | some e => if e.toNat - now.toNat > 2147483647 then "idle-clamped" else if e.toNat ≤ now.toNat then "idle-due" else "idle-wait"
           let a := { a with tl := rest, tags := a.tags ++ ["idle", wtag] }
-          if a.mode == 3 then wPass { a with ws := { a.ws with now := a.ws.now + UInt64.ofNat d } }
-          else
-            let s1 := step (step a.s (.advance d)) .beginPass
-            let a1 := firePass { a with s := s1, wall := a.wall + d } []
-            if a1.err.isSome then a1 else
-            if !valid a1.s .endPass then
-              let due := a1.s.timers.filter fun r => r.expired ≤ a1.s.passNow.getD 0
-              { a1 with err := some s!"op#{a1.nops} pass ended although timer(s) {due.map (·.owner)} are due: SKIPPED" }
-            else
-              let s2 := step a1.s .endPass
-              expectLine { a1 with s := s2 } ("P ret=1 en=" ++ a1.bits s2) "after idle pass"
+          if a.mode == 3 then wPass a d else plainPass a d
   | .adv d =>
-      if a.mode == 3 then wPass { a with ws := { a.ws with now := a.ws.now + UInt64.ofNat d } } else
-      let s1 := step (step a.s (.advance d)) .beginPass
-      let a1 := firePass { a with s := s1, wall := a.wall + d } []
-      if a1.err.isSome then a1 else
-      if !valid a1.s .endPass then
-        let due := a1.s.timers.filter fun r => r.expired ≤ a1.s.passNow.getD 0
-        { a1 with err := some s!"op#{a1.nops} pass ended although timer(s) {due.map (·.owner)} are due (deadline(s) {due.map (·.expired)} <= now {a1.s.passNow.getD 0}): SKIPPED" }
-      else
-        let s2 := step a1.s .endPass
-        let fired := a1.s.log.length - a.s.log.length
-        let tg := if fired = 0 then "pass0" else if fired = 1 then "pass1" else "passN"
-        expectLine { a1 with s := s2, tags := a1.tags ++ [tg] } ("P ret=1 en=" ++ a1.bits s2) "after pass"
+      if a.mode == 3 then wPass a d else plainPass a d
 
 structure DS where
   ops : Array String := #[]
@@ -432,12 +592,12 @@ structure DS where
 
 def finish (d : DS) : List String :=
   let a : TAcc := d.ops.foldl stepOp ({ tl := d.tl.toList } : TAcc)
-  let tagsLine := if a.tags.isEmpty then [] else ["B " ++ " ".intercalate a.tags.eraseDups]
+  let tagsLine := if a.tags.isEmpty then [] else ["B " ++ " ".intercalate ((a.tags ++ (if a.shadow then ["lockstep"] else [])).eraseDups)]
   match a.err with
   | some e => tagsLine ++ ["reject " ++ e]
   | none =>
     match a.tl with
-    | [] => tagsLine ++ [s!"ok ops={a.nops} callbacks={a.s.log.length}"]
+    | [] => tagsLine ++ [s!"ok ops={a.nops} callbacks={a.x.log.length}"]
     | l :: _ => tagsLine ++ ["reject unexpected extra implementation output: [" ++ l ++ "]"]
 
 def stepLine (d : DS) (line : String) : DS × List String :=
